@@ -1,5 +1,6 @@
 """Regenerate coq/gen/PrefixGen.v from omega/symbolic/bdd_iterative.py and
-the token rules of omega/symbolic/bdd.py (tie T for C17; translator
+the token rules of omega/symbolic/bdd.py, and coq/gen/PrefixRecGen.v from
+omega/symbolic/bdd.py and omega/logic/ast.py (tie T for C17; translator
 tools/py2coq_prefix.py).
 
 Translated on every run: bdd_iterative.Parser.parse / _increase / _push /
@@ -7,7 +8,9 @@ _reduce, bdd_iterative.add_expr, the constant sets they read, and the table
 of string token rules of bdd.Lexer.  The theorems of
 coq/GenProofs/PrefixBridge.v (translated code = hand-written model on every
 token list) are about these generated definitions and are re-proved on every
-run.
+run.  Likewise bdd.Parser.parse / _recurse, the node classes built by
+`Parser(nodes=BDDNodes())` with their `flatten` methods, and bdd.add_expr
+(gen/PrefixRecGen.v, GenProofs/PrefixRecBridge.v).
 """
 import os
 import sys
@@ -17,11 +20,17 @@ import py2coq  # noqa: E402
 import py2coq_prefix  # noqa: E402
 from vlib.core import Broken, REPO  # noqa: E402
 
-SOURCES = [py2coq_prefix.ITER_SRC, py2coq_prefix.LEX_SRC]
+SOURCES = [py2coq_prefix.ITER_SRC, py2coq_prefix.LEX_SRC,
+           py2coq_prefix.AST_SRC]
 FUNCTIONS = ['bdd_iterative.Parser.parse', 'bdd_iterative.Parser._increase',
              'bdd_iterative.Parser._push', 'bdd_iterative.Parser._reduce',
              'bdd_iterative.add_expr',
-             'bdd.Lexer (string token rules, as a table)']
+             'bdd.Lexer (string token rules, as a table)',
+             'bdd.Parser.parse', 'bdd.Parser._recurse', 'bdd.add_expr',
+             'bdd.BDDNodes.Operator.flatten', 'bdd.BDDNodes.Var.flatten',
+             'bdd.BDDNodes.Num.flatten', 'bdd.Nodes.Buffer.flatten',
+             'bdd.Nodes.Register.flatten',
+             'constructors of the node classes (bdd.py, omega/logic/ast.py)']
 
 
 def prefix_text():
@@ -29,9 +38,15 @@ def prefix_text():
     return py2coq_prefix.file_text(REPO)
 
 
+def prefix_rec_text():
+    """(text of gen/PrefixRecGen.v, translator notes)."""
+    return py2coq_prefix.file_text_rec(REPO)
+
+
 def ensure_prefix(ctx):
     try:
         t, notes = prefix_text()
+        t2, notes2 = prefix_rec_text()
     except py2coq.Refuse as e:
         raise Broken('translator', f'{", ".join(SOURCES)}: the translator '
                      f'refuses the current source: {e}')
@@ -41,8 +56,9 @@ def ensure_prefix(ctx):
         raise Broken('translator',
                      f'{", ".join(SOURCES)}: translator error {e!r}')
     ctx.write_gen('gen/PrefixGen.v', t)
-    return notes
+    ctx.write_gen('gen/PrefixRecGen.v', t2)
+    return notes + [n for n in notes2 if n not in notes]
 
 
 if __name__ == '__main__':
-    print(prefix_text()[0])
+    print((prefix_rec_text() if sys.argv[1:] == ['rec'] else prefix_text())[0])
